@@ -1,16 +1,78 @@
 """Replay entry point: run one (contract, case) on the REAL, uninstrumented library with concrete
-inputs and re-evaluate the contract's clauses.  Reads a JSON spec on stdin, prints a JSON result."""
+inputs and re-evaluate the contract's clauses.  Reads a JSON spec on stdin, prints a JSON result.
+
+mode "replay"  : values = a solver model
+mode "bounded" : K deterministic, boundary-biased samples of the contract's inputs (the bounded
+                 stand-in used when the changed code is outside the symbolic engine's reach)."""
+import hashlib
 import json
 import sys
+
+
+def sampler(i, seed):
+    def f(name, lo, hi):
+        h = int(hashlib.md5(("%d/%d/%s" % (seed, i, name)).encode()).hexdigest(), 16)
+        if lo is None:
+            lo = -(10 ** 6)
+        if hi is None:
+            hi = 10 ** 6
+        if hi <= lo:
+            return lo
+        mode = h % 10
+        h //= 10
+        if mode < 4:
+            cands = [lo, hi, lo + 1, hi - 1, (lo + hi) // 2]
+            return max(lo, min(hi, cands[h % len(cands)]))
+        return lo + h % (hi - lo + 1)
+
+    return f
 
 
 def main():
     spec = json.loads(sys.stdin.read())
     import dateparser  # the real library (PYTHONPATH=/repo), no instrumentation in this process
 
-    from pyvc.driver import load_contract, run_case_concrete
+    from pyvc.driver import ConcInputs, Rejected, load_contract, run_case_concrete
 
     c = load_contract(spec["module"], spec["contract"])
+    if spec.get("mode") == "bounded":
+        K, seed = spec["samples"], spec.get("seed", 0)
+        fails, accepted, rejected = [], 0, 0
+        for i in range(K):
+            rec = {}
+            smp = sampler(i, seed)
+
+            def dflt(name, lo, hi, rec=rec, smp=smp):
+                v = smp(name, lo, hi)
+                rec[name] = v
+                return v
+
+            import pyvc.driver as drv
+
+            inp_values = {}
+            # run with an on-demand sampler; record the values actually drawn
+            orig = drv.ConcInputs
+
+            class _CI(orig):
+                def __init__(self, values):
+                    orig.__init__(self, values, default=dflt)
+
+            drv.ConcInputs = _CI
+            try:
+                res = run_case_concrete(c, spec["case"], inp_values)
+            finally:
+                drv.ConcInputs = orig
+            if "rejected" in res:
+                rejected += 1
+                continue
+            accepted += 1
+            bad = [k for k, v in res["clauses"].items() if v is False]
+            if bad and len(fails) < 5:
+                fails.append({"values": dict(rec), "failed_clauses": bad, "outcome": res["outcome"],
+                              "call": res["call"]})
+        print(json.dumps({"bounded": True, "samples": K, "accepted": accepted, "rejected": rejected,
+                          "failures": fails, "dateparser_file": dateparser.__file__}, default=repr))
+        return
     res = run_case_concrete(c, spec["case"], spec["values"])
     res["dateparser_file"] = dateparser.__file__
     print(json.dumps(res, default=repr))
